@@ -75,6 +75,8 @@ def ops_for(fnlabel):
     }
     if fnlabel in m:
         return m[fnlabel]
+    if fnlabel.startswith('xpath::model::'):
+        return ['xpath.query.numbers']
     if fnlabel == 'xpath::axis::namespace':
         return ['xpath.query.no_panic']
     if fnlabel.startswith('xpath::axis::'):
